@@ -354,6 +354,87 @@ func TestVerifC05(t *testing.T) {
 			} else {
 				r.Inconclusive("c05: cannot map 4 GiB of zero pages for the long-slice cases")
 			}
+			// slices LONGER than a block, the everyday way (a caller walking a buffer: c.Encrypt(buf[i:], buf[i:])): exactly
+			// ONE block is produced, what lies behind it in dst (and all of src) stays as it was
+			{
+				key := rng.Bytes(16)
+				blk, _ := NewCipher(key)
+				refBlk := ref.NewSM4Block(key)
+				for _, total := range []int{17, 31, 32, 33, 48, 64, 80, 256, 272} {
+					for _, inplace := range []bool{false, true} {
+						src := rng.Bytes(total)
+						srcCopy := append([]byte{}, src...)
+						dst := rng.Bytes(total)
+						if inplace {
+							dst = src
+						}
+						tail := append([]byte{}, dst[16:]...)
+						want := make([]byte, 16)
+						refBlk.Encrypt(want, srcCopy[:16])
+						p, msg, _, _ := hk.Try(func() { blk.Encrypt(dst, src) })
+						d := hk.D{"key": hk.Hex(key), "slice_len": total, "in_place": inplace, "panic": msg}
+						if p || !bytes.Equal(dst[:16], want) {
+							r.Violation("Encrypt-wrong-on-slices-longer-than-a-block:"+pn, d)
+						} else if !bytes.Equal(dst[16:], tail) || (!inplace && !bytes.Equal(src, srcCopy)) {
+							d["bytes_behind_the_block_before"], d["after"] = hk.Hex(tail), hk.Hex(dst[16:])
+							r.Violation("Encrypt-touches-bytes-behind-the-block:"+pn, d)
+						}
+						// the walk: block by block through one buffer, encrypt then decrypt
+						buf := rng.Bytes(total - total%16)
+						orig := append([]byte{}, buf...)
+						exp := make([]byte, len(buf))
+						for i := 0; i < len(buf); i += 16 {
+							refBlk.Encrypt(exp[i:i+16], orig[i:i+16])
+						}
+						p, msg, _, _ = hk.Try(func() {
+							for i := 0; i < len(buf); i += 16 {
+								blk.Encrypt(buf[i:], buf[i:])
+							}
+						})
+						if p || !bytes.Equal(buf, exp) {
+							r.Violation("Encrypt-walk-through-a-buffer-wrong:"+pn, hk.D{"key": hk.Hex(key), "buffer_len": len(buf), "panic": msg, "got": hk.Hex(buf), "want": hk.Hex(exp)})
+						}
+						p, msg, _, _ = hk.Try(func() {
+							for i := 0; i < len(buf); i += 16 {
+								blk.Decrypt(buf[i:], buf[i:])
+							}
+						})
+						if p || !bytes.Equal(buf, orig) {
+							r.Violation("Decrypt-walk-through-a-buffer-wrong:"+pn, hk.D{"key": hk.Hex(key), "buffer_len": len(buf), "panic": msg})
+						}
+						r.Eval("longer-than-a-block:" + pn)
+					}
+				}
+			}
+			// ONE Block used by many goroutines at once (a Block is not a one-caller object): every block comes out as
+			// when the call runs alone
+			{
+				key := rng.Bytes(16)
+				blk, _ := NewCipher(key)
+				nb := 64
+				ins, outs := make([][]byte, nb), make([][]byte, nb)
+				for i := range ins {
+					ins[i] = rng.Bytes(16)
+					outs[i] = ref.SM4Encrypt(key, ins[i])
+				}
+				nOps := hk.N(20000, 200000)
+				hk.Parallel(nOps, func(i int) {
+					j := i % nb
+					o := make([]byte, 16)
+					if i%2 == 0 {
+						blk.Encrypt(o, ins[j])
+						if !bytes.Equal(o, outs[j]) {
+							r.Violation("shared-Block-encrypt-wrong-under-concurrent-use:"+pn, hk.D{"key": hk.Hex(key), "block": hk.Hex(ins[j]), "got": hk.Hex(o), "want": hk.Hex(outs[j])})
+						}
+					} else {
+						blk.Decrypt(o, outs[j])
+						if !bytes.Equal(o, ins[j]) {
+							r.Violation("shared-Block-decrypt-wrong-under-concurrent-use:"+pn, hk.D{"key": hk.Hex(key), "block": hk.Hex(outs[j]), "got": hk.Hex(o), "want": hk.Hex(ins[j])})
+						}
+					}
+				})
+				r.EvalN("shared-block-concurrent-use:"+pn, nOps)
+			}
 			// PLACEMENT of the arguments is an input dimension too: key, source and destination at every offset 0..63
 			// of a buffer (every alignment), and directly against an inaccessible page on either side. "Every key and
 			// every block" includes the ones that do not start on a 16-byte boundary or that end a mapping.
